@@ -16,7 +16,13 @@ func init() {
 	for _, p := range []string{"C02", "C03", "C05"} {
 		p := p
 		kv := p != "C02"
-		props[p] = hmain.Prop{Level: "model_checking", Run: func(c *report.Check) { churn(c, p) }, Worker: e2.Worker(concLookup(p, kv)), Replay: concReplay(p, kv)}
+		lk := concLookup(p, kv)
+		props[p] = hmain.Prop{Level: "model_checking", Run: func(c *report.Check) { churn(c, p) }, Worker: e2.Worker(func(name string) e2.RunFn {
+			if strings.Contains(name, "#") { // membership operation racing KV clients (C04 harness, final reads included)
+				return c04Lookup(p)(name)
+			}
+			return lk(name)
+		}), Replay: concReplay(p, kv)}
 	}
 }
 
@@ -222,7 +228,29 @@ func churn(c *report.Check, prop string) {
 	if c.Thorough() {
 		cb = 2
 	}
-	sum := e2.Drive(c, []e2.Plan{{Scns: scns, Bound: cb, NShards: 4}}, 0)
+	plans := []e2.Plan{{Scns: scns, Bound: cb, NShards: 4}}
+	if prop == "C02" {
+		// two stabilize rounds on one node (periodic task vs the advisory of a join/leave)
+		// with stabilize itself interleaved statement by statement
+		plans = append(plans, e2.Plan{Scns: fineStabilizeScenarios(c.Thorough()), Bound: 2, NShards: 4})
+	}
+	if prop == "C03" {
+		// acknowledged client writes racing the membership change must survive it: the C04
+		// histories (final reads through every node included) with one writer per key
+		cs := c04Scenarios(c.Thorough())
+		if !c.Thorough() {
+			var sub []string
+			for _, x := range cs {
+				if strings.Contains(x, "#c=put:x1@") { // one writer, one reader
+					sub = append(sub, x)
+				}
+			}
+			cs = sub
+		}
+		plans = append(plans, e2.Plan{Scns: cs, Bound: -1, TotalBound: 2, NShards: 6})
+		scns = append(append([]string{}, scns...), cs...)
+	}
+	sum := e2.Drive(c, plans, 0)
 	for _, v := range sum.Violations {
 		cls := v.Violation
 		if i := strings.Index(cls, " ("); i > 0 {
